@@ -54,6 +54,7 @@ def run(ctx):
     repo, cg = ctx.repo, ctx.cg
     ctx.rule('R04.1', 'schema-typed construction: every value the merge code builds and stores under a notebook field has a JSON kind the nbformat schema allows there', floor=8)
     ctx.rule('R04.2', 'version-aware construction: cells created with nbformat constructors (which always add an id) are stripped of the id unless the notebook\'s cells carry ids', floor=4)
+    ctx.rule('R04.4', 'the declared format version of a merge is the maximum over base, local and remote: take_max reads each side\'s own value', floor=2)
     ctx.rule('R04.3', 'the merged result is converted with nbformat.from_dict on the only exit of apply_decisions', floor=1)
 
     sch = NbSchema(5)
@@ -219,3 +220,36 @@ def run(ctx):
     ctx.inst('R04.3', DEC + ':apply_decisions', repo.norm(rets[0]) if rets else '<no return>', ok,
              'plain dicts built during the merge become NotebookNodes (attribute access, nbformat.write)' if ok else
              'the merged structure is returned without nbformat.from_dict', rets[0] if rets else ap)
+
+    # ---------------------------------------------------------------- R04.4 declared minor = max over the three versions
+    # cells of a 4.5 side arrive with ids whichever side they come from; the merged notebook is valid only if it declares
+    # the largest minor any side declares.  Structural part: the take_max arm of resolve_action feeds base, the local value
+    # and the remote value (each read from its own side's diff) into max().
+    from .c05 import mirror_statement_pairs
+    from .. import mergefacts as _mf
+    ra = repo.func(_mf.DEC + ':resolve_action')
+    n = mirror_statement_pairs(ctx, 'R04.4', only={_mf.DEC + ':resolve_action'})
+    if n == 0:
+        raise AnalysisError('resolve_action: no local/remote value pair found in the take_max arm')
+    mx = [c for c in calls_in(ra) if isinstance(c.func, ast.Name) and c.func.id == 'max']
+    if not mx:
+        raise AnalysisError('resolve_action: take_max no longer calls max()')
+    for c in mx:
+        args = [dotted(a) for a in c.args]
+        defs = local_defs(ra)
+        roles = set()
+        for a in args:
+            if a is None:
+                continue
+            for v, k, st in defs.get(a, []):
+                src = ast.unparse(v)
+                if 'local_diff' in src:
+                    roles.add('local')
+                if 'remote_diff' in src:
+                    roles.add('remote')
+                if src.startswith('base['):
+                    roles.add('base')
+        ok = roles == {'base', 'local', 'remote'}
+        ctx.inst('R04.4', _mf.DEC + ':resolve_action', repo.norm(c) + ' over ' + str(sorted(roles)), ok,
+                 'the maximum ranges over base, local and remote' if ok else
+                 'the maximum does not range over all of base, local and remote (%s): the merged notebook can declare a smaller minor than a side whose cells it contains' % sorted(roles), c)
